@@ -125,3 +125,14 @@ package healthcheck
 //@   modifies *
 //@   ensures from_hosts: forall a string :: (a in result) ==> (a in p.hosts.resolved)
 //@   ensures never_empty: len(p.hosts.resolved) > 0 ==> len(result) > 0
+
+// ---- active filter: one run (property C23) ---------------------------------------------------------
+//
+// A list with a single host is returned as it is (that host always counts as healthy). Otherwise the
+// state is first synchronised with the given list, the checks run (goroutines calling failed / passed,
+// each a critical section under the state's lock, not followed here), and the healthy set is read.
+//@ func filter.Run
+//@   requires f != nil && stateShape(f.state) && addrs != nil && addrs != f.state.all && addrs != f.state.healthy && f.checker != nil
+//@   modifies *
+//@   ensures single_host_always_healthy: old(len(addrs)) == 1 ==> (forall a string :: (a in result) <==> old(a in addrs))
+//@   assert synced_before_checks: at state.getHealthy#0 :: forall a string :: (a in f.state.all) <==> (a in addrs)
